@@ -119,6 +119,13 @@ static void blk_ext_content(void) {
 		if ((parts & 2) ? (gil != gl || memcmp(gi, gn, gl)) : (gi != NULL || gil)) vh_viol("C15:ext-content:authorityKeyIdentifier:authorityCertIssuer-differs", "\"parts\":%d,\"got_len\":%zu,\"want_len\":%zu", parts, gil, gl);
 		if (parts & 4) { const uint8_t *a = gs; size_t al = gsl; while (al > 1 && a && a[0] == 0 && !(SL[si] == al)) { a++; al--; } if (!gs || gsl != SL[si] || memcmp(gs, ser, SL[si])) vh_viol("C15:ext-content:authorityKeyIdentifier:authorityCertSerialNumber-differs", "\"supplied\":\"%s\",\"got\":\"%s\"", vh_hex(ser, SL[si]), gs ? vh_hex(gs, gsl > 30 ? 30 : gsl) : "(null)"); (void)a; (void)al; } else if (gs != NULL || gsl) vh_viol("C15:ext-content:authorityKeyIdentifier:authorityCertSerialNumber-differs", "\"supplied\":\"none\",\"got_len\":%zu", gsl);
 		vh_sample("{\"block\":\"extension-content\",\"aki_parts\":%d,\"serial_len\":%zu,\"serial_lead\":%d}", parts, SL[si], LEAD[le]); }
+	/* nameConstraints: permitted only, excluded only, both (the two lists are distinguished by their context tags only) */
+	{ uint8_t s1[300], s2[300], *w1 = s1, *w2 = s2; size_t l1 = 0, l2 = 0; x509_general_subtree_to_der(X509_gn_dns_name, (const uint8_t *)".b.cn", 5, 0, -1, &w1, &l1); x509_general_subtree_to_der(X509_gn_directory_name, NAME_I, NIL, 0, -1, &w1, &l1); x509_general_subtree_to_der(X509_gn_rfc822_name, (const uint8_t *)"x@y.cn", 6, 0, -1, &w2, &l2);
+	  for (int which = 1; which <= 3; which++) for (int crit = 0; crit < 2; crit++) { if (!vh_next()) continue; uint8_t ex[1024]; size_t el = 0; int r = x509_exts_add_name_constraints(ex, &el, sizeof ex, crit ? X509_critical : X509_non_critical, (which & 1) ? s1 : NULL, (which & 1) ? l1 : 0, (which & 2) ? s2 : NULL, (which & 2) ? l2 : 0); vh_eval(vh_mix(which * 2 + crit + 7501));
+		if (r != 1) { vh_viol("C15:ext-content:nameConstraints:refused", "\"which\":%d", which); continue; } size_t vl; const uint8_t *v = ext_value(ex, el, OID_ce_name_constraints, &vl, "nameConstraints"); if (!v) continue; const uint8_t *gp = (const uint8_t *)"x", *ge = gp; size_t gpl = 77, gel = 77;
+		r = x509_name_constraints_from_der(&gp, &gpl, &ge, &gel, &v, &vl); if (r != 1 || vl) { vh_viol("C15:ext-content:nameConstraints:own-output-does-not-parse", "\"which\":%d,\"ret\":%d", which, r); continue; }
+		if ((which & 1) ? (gpl != l1 || memcmp(gp, s1, l1)) : (gp != NULL || gpl)) vh_viol("C15:ext-content:nameConstraints:permittedSubtrees-differs", "\"which\":%d,\"got_len\":%zu,\"want_len\":%zu", which, gpl, (which & 1) ? l1 : (size_t)0);
+		if ((which & 2) ? (gel != l2 || memcmp(ge, s2, l2)) : (ge != NULL || gel)) vh_viol("C15:ext-content:nameConstraints:excludedSubtrees-differs", "\"which\":%d,\"got_len\":%zu,\"want_len\":%zu", which, gel, (which & 2) ? l2 : (size_t)0); } }
 	/* basicConstraints x keyUsage x extKeyUsage x policyConstraints x inhibitAnyPolicy */
 	for (int ca = 0; ca < 2; ca++) for (int pl = -1; pl <= 6; pl += (pl < 1 ? 1 : 5)) for (int kb = 0; kb <= 9; kb++) { if (!vh_next()) continue; if (!ca && pl >= 0) continue; uint8_t ex[512]; size_t el = 0; int ku = kb == 9 ? 0x1ff : (1 << kb); int kp[3] = { OID_kp_client_auth, OID_kp_server_auth, OID_kp_ocsp_signing };
 		int r = x509_exts_add_basic_constraints(ex, &el, sizeof ex, X509_critical, ca, pl) == 1 && x509_exts_add_key_usage(ex, &el, sizeof ex, X509_critical, ku) == 1 && x509_exts_add_ext_key_usage(ex, &el, sizeof ex, X509_non_critical, kp, 1 + kb % 3) == 1 && x509_exts_add_policy_constraints(ex, &el, sizeof ex, X509_critical, kb % 4, pl < 0 ? -1 : pl + 1) == 1 && x509_exts_add_inhibit_any_policy(ex, &el, sizeof ex, X509_critical, kb) == 1;
